@@ -12,7 +12,7 @@ DESC = {
  "C02": ("Set equality with the specification: IterateSATGen is exhausted; every returned sequence is validated by MCTrace (soundness) and TLC enumerates ALL behaviours of the Design generator and reports each accepted sequence the implementation did not return (MCEnum, completeness); duplicates are counted. Large designs (9-24 trials): behaviours produced by TLC simulation of the same generator must be satisfiable when pinned in the compiled formula.", "6/C02"),
  "C03": ("TLC enumerates the models of the complete compiled formula: DPLL over the trial-sequence variables as a state machine (MCModels over Cnf.tla) and, for every consistent assignment of them, a count of the extensions to the auxiliary variables (must be 1); the models are decoded by the library and checked against Design.tla in both directions (model => valid sequence, valid sequence => model, multiplicity = Mult).", "6/C03"),
  "C05": ("The complete tree of random draws of RandomGen's first candidate is explored with the real sampler and a scripted random source; RandomLoop.tla replays every path (well-formed tree) and judges the accepted leaves: exactly Mult(seq) accepted candidates per valid sequence, equal probability per solution; accepted set = valid set by MCTrace/MCEnum.", "6/C05"),
- "C04": ("Trace validation of RandomGen output (class and instance, several requested counts) against the Design specification, including designs of 9-24 trials.", "6/C04"),
+ "C04": ("Trace validation of RandomGen output (class and instance, several requested counts) against the Design specification, including designs of 9-24 trials; in addition RandomGen(1) and RandomGen(2) output is validated against Design!VerdictErr (the documented acceptable-error relaxation).", "6/C04"),
  "C06": ("RandomGen exhausted under a watchdog: set equality with the specification's valid set (MCTrace + MCEnum), distinctness, and the reported solution count for rejection-free single-round designs.", "6/C06"),
  "C07": ("Both samplers exhausted; TLC (MCAgree) compares the two sets and prints every sequence that is in only one of them; independent of the Design specification.", "6/C07"),
  "C08": ("Every design the constructors accept is synthesized with IterateSATGen, RandomGen, CMSGen and UniGen in crash-tolerant worker processes; an exception (or a dying process) is a violation unless documented.", "6/C08"),
